@@ -214,10 +214,7 @@ Proof.
         -- injection H as <- <- <-. exact X.
       * injection H as <- <- <-. exact X.
       * injection H as <- <- <-. exact X.
-    + apply IH in H. eapply ext_trans; [|exact H].
-      constructor; simpl; try reflexivity; auto.
-      * exists O. simpl. symmetry. apply app_nil_r.
-      * exists 1%nat. reflexivity.
+    + apply IH in H. exact H.
 Qed.
 
 Lemma exec_effs_no_hang step e effs : forall g l r g' l',
@@ -563,6 +560,20 @@ Qed.
 Lemma grow_set_socks step g g' x n : grow step g g' -> grow step g (set_socks g' x n).
 Proof. intros [A1 A2 A3 A5 A6]. constructor; auto. Qed.
 
+Lemma probes_of_repeat step effs : exists k, probes_of step effs = repeat step k.
+Proof.
+  induction effs as [|x effs [k IH]]; [exists O; reflexivity|].
+  destruct x; simpl; try (exists k; exact IH). exists (S k). simpl. rewrite IH. reflexivity.
+Qed.
+
+(* the workers of a configuration are started by its startup callbacks *)
+Lemma grow_add_probers step effs g g' :
+  grow step g g' -> grow step g (add_probers step effs g').
+Proof.
+  intros [A1 A2 A3 A5 [p A6]]. destruct (probes_of_repeat step effs) as [k K].
+  constructor; simpl; auto. exists (p + k)%nat. rewrite A6, K, <- app_assoc, repeat_app. reflexivity.
+Qed.
+
 Lemma start_body_grow step e c old g r g' oi :
   start_body step e c old g = (r, g', oi) -> grow step g g'.
 Proof.
@@ -577,7 +588,8 @@ Proof.
   destruct (start_servers old (c_addrs c) g2 []) as [[r3 g3] srv] eqn:E3.
   pose proof (sext_grow step _ _ (proj1 (start_servers_sext _ _ _ _ _ _ _ E3))) as G3.
   assert (G : grow step g g3) by (eapply grow_trans; eauto; eapply grow_trans; eauto).
-  destruct r3; injection H as <- <- <-; [exact G|apply grow_set_socks; exact G|apply grow_set_socks; exact G].
+  destruct r3; injection H as <- <- <-;
+    apply grow_add_probers; [exact G|apply grow_set_socks; exact G|apply grow_set_socks; exact G].
 Qed.
 
 Lemma start_with_grow step e c old g r g' oi :
@@ -980,63 +992,83 @@ Proof.
   destruct r0; injection H as <- <- <-; exact RB.
 Qed.
 
-(* ... and no health-check worker is started where no proxy directive is set up *)
-Lemma exec_effs_no_proxy_probers step e effs : forall g l r g' l',
-  no_proxy effs = true -> exec_effs step e effs g l = (r, g', l') -> g_probers g' = g_probers g.
+(* ... and no health-check worker is started by the directives, nor by a start that fails (they are started
+   by the startup callbacks and stopped again when the start then fails) *)
+Lemma exec_effs_probers step e effs : forall g l r g' l',
+  exec_effs step e effs g l = (r, g', l') -> g_probers g' = g_probers g.
 Proof.
-  induction effs as [|x effs IH]; intros g l r g' l' N H; simpl in H.
+  induction effs as [|x effs IH]; intros g l r g' l' H; simpl in H.
   - injection H as <- <- <-. reflexivity.
-  - simpl in N. apply andb_true_iff in N as [N1 N2].
-    destruct x as [|n|f size ok|f u|]; try discriminate.
+  - destruct x as [|n|f size ok|f u|].
     + injection H as <- <- <-. reflexivity.
-    + apply IH in H; [|exact N2]. exact H.
-    + apply IH in H; [|exact N2]. exact H.
+    + apply IH in H. exact H.
+    + apply IH in H. exact H.
     + destruct (get_matcher e g f u) as [[r1 g1] o1] eqn:M.
       pose proof (c_probers _ _ (get_matcher_cext _ _ _ _ _ _ _ M)) as P1.
       destruct r1.
       * destruct o1 as [pw|].
-        -- apply IH in H; [|exact N2]. congruence.
+        -- apply IH in H. congruence.
         -- injection H as <- <- <-. exact P1.
       * injection H as <- <- <-. exact P1.
       * injection H as <- <- <-. exact P1.
+    + apply IH in H. exact H.
 Qed.
 
-Lemma start_with_no_proxy_probers step e c old g r g' oi :
-  no_proxy (c_effs c) = true -> start_with step e c old g = (r, g', oi) -> g_probers g' = g_probers g.
+Lemma probes_of_no_proxy step effs : no_proxy effs = true -> probes_of step effs = [].
 Proof.
-  unfold start_with. intros NP H.
+  induction effs as [|x effs IH]; [reflexivity|]. simpl. intros N. apply andb_true_iff in N as [N1 N2].
+  destruct x; try discriminate; apply IH; exact N2.
+Qed.
+
+(* the workers are started by the startup callbacks of `proxy`, the last ones to run: a start that fails leaves
+   workers behind only if it got as far as startServers, i.e. only if a listener of a configuration with a
+   proxy health check fails to bind *)
+Definition no_probe_leak (c : cfg) : bool := no_proxy (c_effs c) || negb (existsb is_busy (c_addrs c)).
+
+Lemma start_with_failed_probers step e c old g r g' oi :
+  no_probe_leak c = true ->
+  start_with step e c old g = (r, g', oi) -> r <> ROk -> g_probers g' = g_probers g.
+Proof.
+  unfold start_with. intros NL H NR.
   destruct (start_body step e c old g) as [[r0 gb] oi0] eqn:B.
-  assert (RB : g_probers gb = g_probers g).
+  assert (RB : r0 <> ROk -> g_probers gb = g_probers g).
   { revert B. unfold start_body.
     destruct (negb (parse_ok c)); [intros B; injection B as <- <- <-; reflexivity|].
     destruct (exec_effs step e (c_effs c) g l0) as [[r1 g1] l] eqn:E1.
-    pose proof (exec_effs_no_proxy_probers _ _ _ _ _ _ _ _ NP E1) as R1.
-    destruct r1; try (intros B; injection B as <- <- <-; exact R1).
+    pose proof (exec_effs_probers _ _ _ _ _ _ _ _ E1) as R1.
+    destruct r1; try (intros B; injection B as <- <- <-; intros _; exact R1).
     destruct (run_startups (l_startups l) g1) as [r2 g2] eqn:E2.
     pose proof (r_probers _ _ (proj1 (run_startups_rext _ _ _ _ E2))) as R2.
-    destruct r2; try (intros B; injection B as <- <- <-; congruence).
+    destruct r2; try (intros B; injection B as <- <- <-; intros _; congruence).
     destruct (start_servers old (c_addrs c) g2 []) as [[r3 g3] srv] eqn:E3.
     pose proof (s_probers _ _ (proj1 (start_servers_sext _ _ _ _ _ _ _ E3))) as R3.
-    destruct r3; intros B; injection B as <- <- <-; simpl; congruence. }
-  destruct r0; injection H as <- <- <-; exact RB.
+    assert (LK : r3 <> ROk -> probes_of step (c_effs c) = []).
+    { intros N3. unfold no_probe_leak in NL. apply orb_true_iff in NL as [NP|NB].
+      - apply probes_of_no_proxy. exact NP.
+      - apply negb_true_iff in NB. pose proof (start_servers_no_busy _ _ _ _ _ _ _ NB E3). congruence. }
+    destruct r3; intros B; injection B as <- <- <-; intros NR0; [congruence|..];
+      cbn [add_probers set_probers set_socks g_probers]; rewrite LK by discriminate;
+      rewrite app_nil_r; congruence. }
+  destruct r0; injection H as <- <- <-; [congruence|apply RB; discriminate|apply RB; discriminate].
 Qed.
 
-Lemma do_validate_no_proxy_probers step e c g r g' :
-  no_proxy (c_effs c) = true -> do_validate step e c g = (r, g') -> g_probers g' = g_probers g.
+(* a validation (and an API-driven execution of the directives) starts nothing, whatever its outcome *)
+Lemma do_validate_probers step e c g r g' :
+  do_validate step e c g = (r, g') -> g_probers g' = g_probers g.
 Proof.
-  unfold do_validate. intros NP H.
+  unfold do_validate. intros H.
   destruct (negb (parse_ok c)); [injection H as <- <-; reflexivity|].
   destruct (exec_effs step e (c_effs c) g l0) as [[r1 g1] l] eqn:E1.
-  pose proof (exec_effs_no_proxy_probers _ _ _ _ _ _ _ _ NP E1) as R1.
+  pose proof (exec_effs_probers _ _ _ _ _ _ _ _ E1) as R1.
   destruct r1; injection H as <- <-; exact R1.
 Qed.
 
 Lemma start_with_harmless step e c old g r g' oi :
-  socks_ok g -> no_proxy (c_effs c) = true -> no_log (c_effs c) = true ->
+  socks_ok g -> no_log (c_effs c) = true -> no_probe_leak c = true ->
   start_with step e c old g = (r, g', oi) -> r <> ROk -> same_but_cache g g'.
 Proof.
-  intros T NP NL H NR.
-  pose proof (start_with_no_proxy_probers _ _ _ _ _ _ _ _ NP H) as PB.
+  intros T NL NPL H NR.
+  pose proof (start_with_failed_probers _ _ _ _ _ _ _ _ NPL H NR) as PB.
   pose proof (start_with_grow _ _ _ _ _ _ _ _ H) as G.
   destruct (start_with_socks _ _ _ _ _ _ _ _ T H) as (_ & _ & KO). destruct (KO NR) as [KS KN].
   pose proof (start_with_hooks _ _ _ _ _ _ _ _ H NR) as HK.
@@ -1055,34 +1087,39 @@ Qed.
 Theorem failed_harmless0_identity m step e c g r g' :
   wf g -> harmless0 m c = true -> attempt m step e c g = (r, g') -> r <> ROk -> same_but_cache g g'.
 Proof.
-  intros (W & T & C) HM H NR. unfold harmless0 in HM. apply andb_true_iff in HM as [NP HM].
+  intros (W & T & C) HM H NR. unfold harmless0 in HM.
   assert (VL : forall g r g', do_validate step e c g = (r, g') -> r <> ROk -> same_but_cache g g').
-  { clear - NP. intros g r g' H NR.
-    pose proof (do_validate_no_proxy_probers _ _ _ _ _ _ NP H) as PB.
+  { clear. intros g r g' H NR.
+    pose proof (do_validate_probers _ _ _ _ _ _ H) as PB.
     destruct (do_validate_ext _ _ _ _ _ _ H) as (X & HK & _). destruct X.
     repeat split; auto. }
-  assert (RL : forall g r g', socks_ok g -> no_log (c_effs c) = true ->
+  assert (RL : forall g r g', socks_ok g -> no_log (c_effs c) = true -> no_probe_leak c = true ->
             do_reload step e c g = (r, g') -> r <> ROk -> same_but_cache g g').
-  { clear - NP. intros g r g' T NL H NR. unfold do_reload in H.
+  { clear. intros g r g' T NL NPL H NR. unfold do_reload in H.
     destruct (g_insts g) as [|old rest] eqn:GI; [injection H as <- <-; apply same_but_cache_refl|].
     destruct (start_with step e c (i_servers old) g) as [[r1 g1] oi] eqn:S.
     assert (NR1 : r1 <> ROk).
     { intros ->. destruct (start_with_ok_some _ _ _ _ _ _ _ S) as [ni ->]. injection H as <- <-. congruence. }
-    pose proof (start_with_harmless _ _ _ _ _ _ _ _ T NP NL S NR1) as F.
+    pose proof (start_with_harmless _ _ _ _ _ _ _ _ T NL NPL S NR1) as F.
     destruct r1; [congruence|..]; injection H as <- <-; exact F. }
+  assert (HM2 : match m with Validate | Execute => True
+                | _ => no_log (c_effs c) = true /\ no_probe_leak c = true end).
+  { destruct m; try exact I; apply andb_true_iff in HM; exact HM. }
   destruct m; simpl in H.
-  - unfold do_load in H. destruct (start_with step e c [] g) as [[r1 g1] oi] eqn:S.
+  - destruct HM2 as [HL HP].
+    unfold do_load in H. destruct (start_with step e c [] g) as [[r1 g1] oi] eqn:S.
     assert (NR1 : r1 <> ROk).
     { intros ->. destruct (start_with_ok_some _ _ _ _ _ _ _ S) as [ni ->]. injection H as <- <-. congruence. }
-    pose proof (start_with_harmless step e c [] g r1 g1 oi T NP HM S NR1) as F.
+    pose proof (start_with_harmless step e c [] g r1 g1 oi T HL HP S NR1) as F.
     destruct r1; [congruence|..]; injection H as <- <-; exact F.
   - eapply VL; eauto.
-  - eapply RL; eauto.
+  - destruct HM2 as [HL HP]. eapply RL; eauto.
   - rewrite do_sigusr1_unfold in H. destruct (g_insts g) as [|old rest] eqn:GI; [injection H as <- <-; apply same_but_cache_refl|].
     destruct (do_reload step e c (set_hooks g [])) as [r1 g1] eqn:R.
     assert (r1 <> ROk) as NR1 by (destruct r1; injection H as <- <-; congruence).
     assert (T' : socks_ok (set_hooks g [])) by exact T.
-    destruct (RL _ _ _ T' HM R NR1) as (A1 & A2 & A3 & A4 & A5 & A6 & A7). simpl in *.
+    destruct HM2 as [HL HP].
+    destruct (RL _ _ _ T' HL HP R NR1) as (A1 & A2 & A3 & A4 & A5 & A6 & A7). simpl in *.
     destruct r1; injection H as <- <-; try congruence; repeat split; simpl; auto.
   - eapply VL; eauto.
 Qed.
@@ -1202,7 +1239,7 @@ Proof.
         -- injection H as <- <- <-. exists C1. split; [exact CC1|reflexivity].
       * injection H as <- <- <-. exists C1. split; [exact CC1|reflexivity].
       * injection H as <- <- <-. exists C1. split; [exact CC1|reflexivity].
-    + exact (IH (set_probers g (g_probers g ++ [step])) _ _ _ _ CK H C CC).
+    + exact (IH g _ _ _ _ CK H C CC).
 Qed.
 
 Lemma add_roller_any_cache g f size C : add_roller (set_htcache g C) f size = set_htcache (add_roller g f size) C.
@@ -1317,74 +1354,72 @@ Proof.
 Qed.
 
 (* ------------------------------------------------------------------ a contained panic *)
-Lemma panic_tail_facts step e c g g1 l :
-  exec_effs step e (c_effs c) g l0 = (ROk, g1, l) ->
-  g_htlock (set_insts g1 (g_insts g1 ++ [zombie step c])) = g_htlock g /\
-  ((forall i, In i (g_insts g) -> srv_wf (i_servers i)) -> socks_ok g -> cache_ok g ->
-     wf (set_insts g1 (g_insts g1 ++ [zombie step c]))).
+(* a panic contained by Restart IS a failed reload: of the configuration followed by a failing directive *)
+Lemma attempt_panic_is_attempt sg step e c g :
+  attempt_panic sg step e c g = attempt (if sg then Sigusr1 else Reload) step e (with_panic c) g.
+Proof. destruct sg; reflexivity. Qed.
+
+Lemma exec_effs_bad_tail step e effs : forall g l r g' l',
+  exec_effs step e (effs ++ [EBad]) g l = (r, g', l') -> r <> ROk.
 Proof.
-  intros E. pose proof (exec_effs_ext _ _ _ _ _ _ _ _ E) as X.
-  split; [exact (x_lock _ _ _ X)|].
-  intros W T C. split; [|split].
-  - simpl. intros i Hi. apply in_app_or in Hi as [Hi|[<-|[]]].
-    + rewrite (x_insts _ _ _ X) in Hi. auto.
-    + intros a sid [].
-  - intros s Hs. simpl in Hs |- *. rewrite (x_socks _ _ _ X) in Hs. rewrite (x_next _ _ _ X). apply T. exact Hs.
-  - exact (exec_effs_cache_ok _ _ _ _ _ _ _ _ C E).
+  induction effs as [|x effs IH]; intros g l r g' l' H; simpl in H.
+  - injection H as <- <- <-. discriminate.
+  - destruct x as [|n|f size ok|f u|].
+    + injection H as <- <- <-. discriminate.
+    + eapply IH; exact H.
+    + eapply IH; exact H.
+    + destruct (get_matcher e g f u) as [[r1 g1] o1].
+      destruct r1.
+      * destruct o1 as [pw|]; [eapply IH; exact H|injection H as <- <- <-; discriminate].
+      * injection H as <- <- <-. discriminate.
+      * injection H as <- <- <-. discriminate.
+    + eapply IH; exact H.
+Qed.
+
+Lemma start_with_panic_fails step e c old g r g' oi :
+  start_with step e (with_panic c) old g = (r, g', oi) -> r <> ROk.
+Proof.
+  unfold start_with, start_body. intros H.
+  destruct (negb (parse_ok (with_panic c))); [injection H as <- <- <-; discriminate|].
+  cbn [with_panic c_effs] in H.
+  destruct (exec_effs step e (c_effs c ++ [EBad]) g l0) as [[r1 g1] l] eqn:E1.
+  pose proof (exec_effs_bad_tail _ _ _ _ _ _ _ _ E1) as NR.
+  destruct r1; [congruence|injection H as <- <- <-; discriminate|injection H as <- <- <-; discriminate].
+Qed.
+
+Lemma do_reload_panic_fails step e c g r g' :
+  do_reload step e (with_panic c) g = (r, g') -> r <> ROk.
+Proof.
+  unfold do_reload. intros H.
+  destruct (g_insts g) as [|old rest]; [injection H as <- <-; discriminate|].
+  destruct (start_with step e (with_panic c) (i_servers old) g) as [[r1 g1] oi] eqn:S.
+  pose proof (start_with_panic_fails _ _ _ _ _ _ _ _ S) as NR.
+  destruct r1; [congruence|injection H as <- <-; discriminate|injection H as <- <-; discriminate].
+Qed.
+
+(* it never reports success *)
+Lemma attempt_panic_fails sg step e c g r g' :
+  attempt_panic sg step e c g = (r, g') -> r <> ROk.
+Proof.
+  destruct sg; simpl; intros H.
+  - rewrite do_sigusr1_unfold in H. destruct (g_insts g) as [|old rest]; [injection H as <- <-; discriminate|].
+    destruct (do_reload step e (with_panic c) (set_hooks g [])) as [r1 g1] eqn:R.
+    pose proof (do_reload_panic_fails _ _ _ _ _ _ R) as NR.
+    destruct r1; [congruence|injection H as <- <-; discriminate|injection H as <- <-; discriminate].
+  - eapply do_reload_panic_fails; eauto.
 Qed.
 
 Lemma attempt_panic_lock sg step e c g r g' :
   attempt_panic sg step e c g = (r, g') ->
   g_htlock g' = g_htlock g /\ (g_htlock g = false -> r <> RHang).
 Proof.
-  assert (RL : forall g r g', do_reload step e c g = (r, g') ->
-               g_htlock g' = g_htlock g /\ (g_htlock g = false -> r <> RHang)).
-  { intros g2 r2 g2' H. split; [exact (attempt_lock Reload _ _ _ _ _ _ H)|].
-    intros L. exact (attempt_no_hang Reload _ _ _ _ _ _ L H). }
-  assert (SL : forall g r g', do_sigusr1 step e c g = (r, g') ->
-               g_htlock g' = g_htlock g /\ (g_htlock g = false -> r <> RHang)).
-  { intros g2 r2 g2' H. split; [exact (attempt_lock Sigusr1 _ _ _ _ _ _ H)|].
-    intros L. exact (attempt_no_hang Sigusr1 _ _ _ _ _ _ L H). }
-  destruct sg; simpl; intros H.
-  - unfold do_sigusr1_panic in H. destruct (g_insts g) as [|old rest]; [injection H as <- <-; split; [reflexivity|discriminate]|].
-    destruct (loader_fails c); [injection H as <- <-; split; [reflexivity|discriminate]|].
-    destruct (parse_ok c); [|apply SL; exact H].
-    destruct (exec_effs step e (c_effs c) (set_hooks g []) l0) as [[r1 g1] l] eqn:E1.
-    destruct r1; try (apply SL; exact H).
-    injection H as <- <-. destruct (panic_tail_facts _ _ _ _ _ _ E1) as [L _].
-    split; [exact L|discriminate].
-  - unfold do_reload_panic in H. destruct (g_insts g) as [|old rest]; [injection H as <- <-; split; [reflexivity|discriminate]|].
-    destruct (parse_ok c); [|apply RL; exact H].
-    destruct (exec_effs step e (c_effs c) g l0) as [[r1 g1] l] eqn:E1.
-    destruct r1; try (apply RL; exact H).
-    injection H as <- <-. destruct (panic_tail_facts _ _ _ _ _ _ E1) as [L _].
-    split; [exact L|discriminate].
+  rewrite attempt_panic_is_attempt. intros H. split; [exact (attempt_lock _ _ _ _ _ _ _ H)|].
+  intros L. exact (attempt_no_hang _ _ _ _ _ _ _ L H).
 Qed.
 
 Lemma attempt_panic_wf sg step e c g r g' :
   wf g -> attempt_panic sg step e c g = (r, g') -> wf g'.
-Proof.
-  intros W.
-  assert (RL : forall r g', do_reload step e c g = (r, g') -> wf g')
-    by (intros r2 g2' H; exact (attempt_wf Reload _ _ _ _ _ _ W H)).
-  assert (SL : forall r g', do_sigusr1 step e c g = (r, g') -> wf g')
-    by (intros r2 g2' H; exact (attempt_wf Sigusr1 _ _ _ _ _ _ W H)).
-  pose proof W as W0. destruct W as (W1 & T & C).
-  destruct sg; simpl; intros H.
-  - unfold do_sigusr1_panic in H. destruct (g_insts g) as [|old rest]; [injection H as <- <-; exact W0|].
-    destruct (loader_fails c); [injection H as <- <-; exact W0|].
-    destruct (parse_ok c); [|exact (SL _ _ H)].
-    destruct (exec_effs step e (c_effs c) (set_hooks g []) l0) as [[r1 g1] l] eqn:E1.
-    destruct r1; try exact (SL _ _ H).
-    injection H as <- <-. destruct (panic_tail_facts _ _ _ _ _ _ E1) as [_ WF].
-    apply WF; [exact (proj1 W0)|exact T|exact C].
-  - unfold do_reload_panic in H. destruct (g_insts g) as [|old rest]; [injection H as <- <-; exact W0|].
-    destruct (parse_ok c); [|exact (RL _ _ H)].
-    destruct (exec_effs step e (c_effs c) g l0) as [[r1 g1] l] eqn:E1.
-    destruct r1; try exact (RL _ _ H).
-    injection H as <- <-. destruct (panic_tail_facts _ _ _ _ _ _ E1) as [_ WF].
-    apply WF; [exact (proj1 W0)|exact T|exact C].
-Qed.
+Proof. rewrite attempt_panic_is_attempt. intros W H. exact (attempt_wf _ _ _ _ _ _ _ W H). Qed.
 
 (* ------------------------------------------------------------------ histories *)
 
@@ -1408,7 +1443,13 @@ Proof.
       destruct (IH _ _ _ _ _ _ Wa HH R2 AF) as (SB2 & W2 & E2).
       split; [eapply same_but_cache_trans; eauto|]. split; [exact W2|exact E2].
     + injection S as <- <- <-. simpl in AF. simpl. eapply IH; eauto.
-    + discriminate.
+    + destruct (attempt_panic sg step e c g) as [r ga] eqn:A. injection S as <- <- <-.
+      simpl in AF. destruct AF as [NR AF].
+      pose proof (attempt_panic_wf _ _ _ _ _ _ _ W A) as Wa.
+      rewrite attempt_panic_is_attempt in A.
+      pose proof (failed_harmless_identity _ _ _ _ _ _ _ W HO A NR) as SB.
+      destruct (IH _ _ _ _ _ _ Wa HH R2 AF) as (SB2 & W2 & E2).
+      split; [eapply same_but_cache_trans; eauto|]. split; [exact W2|exact E2].
 Qed.
 
 Theorem valid_after_harmless_failures h step0 e g rs e' g' :
@@ -1762,47 +1803,68 @@ Proof.
 Qed.
 
 (* ------------------------------------------------------------------ health-check workers *)
-Lemma attempt_no_proxy_probers m step e c g r g' :
-  no_proxy (c_effs c) = true -> attempt m step e c g = (r, g') -> r <> ROk -> g_probers g' = g_probers g.
+(* a failed attempt leaves the list of running health-check workers exactly as before unless it got as far as
+   startServers with a proxy health check set up and a listener that fails to bind: nothing is started while
+   directives are parsed, the workers are started by the last startup callbacks *)
+Definition probe_safe (m : mode) (c : cfg) : bool :=
+  match m with Validate | Execute => true | _ => no_probe_leak c end.
+
+Lemma failed_attempt_probers0 m step e c g r g' :
+  probe_safe m c = true -> attempt m step e c g = (r, g') -> r <> ROk -> g_probers g' = g_probers g.
 Proof.
-  intros NP.
-  assert (RL : forall g r g', do_reload step e c g = (r, g') -> r <> ROk -> g_probers g' = g_probers g).
-  { clear - NP. intros g r g' H NR. unfold do_reload in H.
+  assert (RL : no_probe_leak c = true -> forall g r g', do_reload step e c g = (r, g') -> r <> ROk -> g_probers g' = g_probers g).
+  { clear. intros NPL g r g' H NR. unfold do_reload in H.
     destruct (g_insts g) as [|old rest]; [injection H as <- <-; reflexivity|].
     destruct (start_with step e c (i_servers old) g) as [[r1 g1] oi] eqn:S.
-    pose proof (start_with_no_proxy_probers _ _ _ _ _ _ _ _ NP S) as PB.
-    destruct r1; [destruct oi|..]; injection H as <- <-; try exact PB. congruence. }
-  destruct m; simpl; intros H NR.
+    assert (NR1 : r1 <> ROk).
+    { intros ->. destruct (start_with_ok_some _ _ _ _ _ _ _ S) as [ni ->]. injection H as <- <-. congruence. }
+    pose proof (start_with_failed_probers _ _ _ _ _ _ _ _ NPL S NR1) as PB.
+    destruct r1; [congruence|..]; injection H as <- <-; exact PB. }
+  destruct m; simpl; intros PS H NR.
   - unfold do_load in H. destruct (start_with step e c [] g) as [[r1 g1] oi] eqn:S.
-    pose proof (start_with_no_proxy_probers _ _ _ _ _ _ _ _ NP S) as PB.
-    destruct r1; [destruct oi|..]; injection H as <- <-; exact PB.
-  - eapply do_validate_no_proxy_probers; eauto.
+    assert (NR1 : r1 <> ROk).
+    { intros ->. destruct (start_with_ok_some _ _ _ _ _ _ _ S) as [ni ->]. injection H as <- <-. congruence. }
+    pose proof (start_with_failed_probers _ _ _ _ _ _ _ _ PS S NR1) as PB.
+    destruct r1; [congruence|..]; injection H as <- <-; exact PB.
+  - eapply do_validate_probers; eauto.
   - eapply RL; eauto.
   - rewrite do_sigusr1_unfold in H. destruct (g_insts g) as [|old rest]; [injection H as <- <-; reflexivity|].
     destruct (do_reload step e c (set_hooks g [])) as [r1 g1] eqn:R.
     assert (r1 <> ROk) as NR1 by (destruct r1; injection H as <- <-; congruence).
-    pose proof (RL _ _ _ R NR1) as PB. simpl in PB.
+    pose proof (RL PS _ _ _ R NR1) as PB. simpl in PB.
     destruct r1; injection H as <- <-; try congruence; exact PB.
-  - eapply do_validate_no_proxy_probers; eauto.
+  - eapply do_validate_probers; eauto.
 Qed.
+
+(* ... stated on the part of the configuration the attempt reaches: a configuration rejected by a directive
+   reaches no listener *)
+Theorem failed_attempt_probers m step e c g r g' :
+  probe_safe m (reached c) = true -> attempt m step e c g = (r, g') -> r <> ROk -> g_probers g' = g_probers g.
+Proof. intros PS H NR. rewrite attempt_reached in H. eapply failed_attempt_probers0; eauto. Qed.
+
+(* a validation and an API-driven execution of the directives start nothing even when they succeed *)
+Theorem validate_starts_nothing m step e c g r g' :
+  (m = Validate \/ m = Execute) -> attempt m step e c g = (r, g') -> g_probers g' = g_probers g.
+Proof. intros [-> | ->] H; simpl in H; eapply do_validate_probers; eauto. Qed.
 
 (* ------------------------------------------------------------------ the state without the leaking registries *)
 (* FULL, no side condition: whatever fails, however far it got, the instance list, the hook registry, the mutex,
    the socket table with its descriptor counts and the name supply are exactly as before; the two registries
-   that are still written to only GROW (rollers are added, never changed; workers are added for this step,
-   never stopped), and the worker list is untouched too when no proxy directive is reached *)
+   that startup callbacks write to only GROW (rollers are added, never changed; workers are added for this step,
+   never stopped), and the worker list is untouched unless the attempt got as far as startServers with a proxy
+   health check set up and a listener that fails to bind *)
 Theorem failed_attempt_frame_without_rollers m step e c g r g' :
   wf g -> attempt m step e c g = (r, g') -> r <> ROk ->
   same_but_leaks g g' /\
   (forall f x, assoc f (g_rollers g) = Some x -> assoc f (g_rollers g') = Some x) /\
   (exists k, g_probers g' = g_probers g ++ repeat step k) /\
-  (no_proxy (c_effs (reached c)) = true -> g_probers g' = g_probers g).
+  (probe_safe m (reached c) = true -> g_probers g' = g_probers g).
 Proof.
   intros (W & T & C) H NR. destruct (failed_attempt_grow _ _ _ _ _ _ _ H NR) as [G1 G2 G3 G5 G6].
   destruct (failed_attempt_socks _ _ _ _ _ _ _ T H NR) as [S1 S2].
   pose proof (failed_attempt_hooks _ _ _ _ _ _ _ H NR) as HK.
   split; [repeat split; assumption|]. split; [exact G5|]. split; [exact G6|].
-  intros NP. rewrite attempt_reached in H. eapply attempt_no_proxy_probers; eauto.
+  intros PS. eapply failed_attempt_probers; eauto.
 Qed.
 
 Lemma same_but_leaks_refl g : same_but_leaks g g.
@@ -1850,7 +1912,7 @@ Proof.
         -- injection H as <- <- <-. exists P. reflexivity.
       * injection H as <- <- <-. exists P. reflexivity.
       * injection H as <- <- <-. exists P. reflexivity.
-    + exact (IH (set_probers g (g_probers g ++ [step])) _ _ _ _ H R (P ++ [step])).
+    + exact (IH g _ _ _ _ H R P).
 Qed.
 
 Lemma run_startups_any_rp cbs : forall g r g' R P,
@@ -1898,7 +1960,8 @@ Proof.
     destruct r2; try (intros B; injection B as <- <- <-; exists R1, P1; reflexivity).
     destruct (start_servers old (c_addrs c) g2 []) as [[r3 g3] srv] eqn:S2.
     rewrite (start_servers_any_rp _ _ _ _ _ _ _ R1 P1 S2).
-    destruct r3; intros B; injection B as <- <- <-; exists R1, P1; reflexivity. }
+    destruct r3; intros B; injection B as <- <- <-;
+      exists R1, (P1 ++ probes_of step (c_effs c)); reflexivity. }
   destruct BB as (R1 & P1 & B2). rewrite B2.
   destruct r0; injection H as <- <- <-; exists R1, P1; reflexivity.
 Qed.
@@ -1974,18 +2037,54 @@ Lemma failed_attempt_same_but_leaks m step e c g r g' :
   wf g -> attempt m step e c g = (r, g') -> r <> ROk -> same_but_leaks g g'.
 Proof. intros W H NR. exact (proj1 (failed_attempt_frame_without_rollers _ _ _ _ _ _ _ W H NR)). Qed.
 
-(* over ALL histories of attempts that return (no contained panic) and fail, and of file rewrites, without
-   any side condition on the configurations: the state is the state before up to the cache, the roller map and
-   the worker list, so every later attempt has the outcome it has without the failures, and the same effect
-   on everything but these three *)
+(* a panic contained by Restart: the configuration followed by a failing directive never reaches a startup
+   callback, so it is harmless in the sense of [harmless] whatever it contains *)
+Lemma cut_bad_bad_tail effs : snd (cut_bad (effs ++ [EBad])) = true.
+Proof.
+  induction effs as [|x effs IH]; [reflexivity|].
+  destruct x; simpl; try reflexivity; destruct (cut_bad (effs ++ [EBad])) as [p b]; exact IH.
+Qed.
+
+Lemma no_log_filter_bad pre : no_log (filter not_log pre ++ [EBad]) = true.
+Proof.
+  induction pre as [|x pre IH]; [reflexivity|]. destruct x; simpl; exact IH.
+Qed.
+
+Lemma harmless_with_panic m c : harmless m (with_panic c) = true.
+Proof.
+  unfold harmless, harmless0, reached.
+  destruct (negb (parse_ok (with_panic c))); [destruct m; reflexivity|].
+  cbn [with_panic c_effs].
+  pose proof (cut_bad_bad_tail (c_effs c)) as CB.
+  destruct (cut_bad (c_effs c ++ [EBad])) as [pre bad]. simpl in CB. subst bad.
+  cbn [c_effs c_addrs existsb negb]. destruct m; try reflexivity; rewrite no_log_filter_bad, orb_true_r; reflexivity.
+Qed.
+
+(* FULL frame for the contained panic: it fails, and the ENTIRE state is as before up to what the transparent
+   cache holds — no half-made instance, no hook of the rejected configuration, the hooks of the running one
+   restored after SIGUSR1, no listener, no worker, no roller *)
+Theorem contained_panic_frame sg step e c g r g' :
+  wf g -> attempt_panic sg step e c g = (r, g') -> r <> ROk /\ same_but_cache g g'.
+Proof.
+  intros W H. pose proof (attempt_panic_fails _ _ _ _ _ _ _ H) as NR. split; [exact NR|].
+  rewrite attempt_panic_is_attempt in H.
+  exact (failed_harmless_identity _ _ _ _ _ _ _ W (harmless_with_panic _ c) H NR).
+Qed.
+
+Lemma same_but_cache_leaks g g' : same_but_cache g g' -> same_but_leaks g g'.
+Proof. intros (A1 & A2 & A3 & A4 & A5 & A6 & A7). repeat split; assumption. Qed.
+
+(* over ALL histories of attempts that fail (every mode, every kind of failure at every stage, contained panics
+   included) and of file rewrites, without any side condition on the configurations: the state is the state
+   before up to the cache, the roller map and the worker list, so every later attempt has the outcome it has
+   without the failures, and the same effect on everything but these three *)
 Theorem run_failures_same_but_leaks h : forall step e g rs e' g',
-  wf g -> forallb returns_op h = true -> run step h (e, g) = (rs, (e', g')) ->
+  wf g -> run step h (e, g) = (rs, (e', g')) ->
   attempts_failed h rs -> same_but_leaks g g' /\ wf g' /\ e' = writes h e.
 Proof.
-  induction h as [|o h IH]; intros step e g rs e' g' W HH R AF; simpl in R.
+  induction h as [|o h IH]; intros step e g rs e' g' W R AF; simpl in R.
   - injection R as <- <- <-. split; [apply same_but_leaks_refl|]. split; [exact W|reflexivity].
-  - simpl in HH. apply andb_true_iff in HH as [HO HH].
-    destruct (step_op step o (e, g)) as [x [e1 g1]] eqn:S.
+  - destruct (step_op step o (e, g)) as [x [e1 g1]] eqn:S.
     destruct (run (step + 1) h (e1, g1)) as [xs [e2 g2]] eqn:R2.
     injection R as <- <- <-.
     destruct o as [m c|f hf|sg c]; simpl in S.
@@ -1993,21 +2092,27 @@ Proof.
       simpl in AF. destruct AF as [NR AF].
       pose proof (failed_attempt_same_but_leaks _ _ _ _ _ _ _ W A NR) as SB.
       pose proof (attempt_wf _ _ _ _ _ _ _ W A) as Wa.
-      destruct (IH _ _ _ _ _ _ Wa HH R2 AF) as (SB2 & W2 & E2).
+      destruct (IH _ _ _ _ _ _ Wa R2 AF) as (SB2 & W2 & E2).
       split; [eapply same_but_leaks_trans; eauto|]. split; [exact W2|exact E2].
     + injection S as <- <- <-. simpl in AF. simpl. eapply IH; eauto.
-    + discriminate.
+    + destruct (attempt_panic sg step e c g) as [r ga] eqn:A. injection S as <- <- <-.
+      simpl in AF. destruct AF as [NR AF].
+      destruct (contained_panic_frame _ _ _ _ _ _ _ W A) as [_ SC].
+      pose proof (attempt_panic_wf _ _ _ _ _ _ _ W A) as Wa.
+      destruct (IH _ _ _ _ _ _ Wa R2 AF) as (SB2 & W2 & E2).
+      split; [eapply same_but_leaks_trans; [apply same_but_cache_leaks; exact SC|exact SB2]|].
+      split; [exact W2|exact E2].
 Qed.
 
 Theorem valid_after_failures_without_rollers h step0 e g rs e' g' :
-  wf g -> forallb returns_op h = true ->
+  wf g ->
   run step0 h (e, g) = (rs, (e', g')) -> attempts_failed h rs ->
   same_but_leaks g g' /\ e' = writes h e /\
   forall m step v r ga, attempt m step (writes h e) v g = (r, ga) ->
   exists gb, attempt m step e' v g' = (r, gb) /\ same_but_leaks ga gb.
 Proof.
-  intros W HH R AF.
-  destruct (run_failures_same_but_leaks h step0 e g rs e' g' W HH R AF) as (SB & W' & ->).
+  intros W R AF.
+  destruct (run_failures_same_but_leaks h step0 e g rs e' g' W R AF) as (SB & W' & ->).
   split; [exact SB|]. split; [reflexivity|].
   intros m step v r ga A.
   destruct W as (_ & _ & C). destruct W' as (_ & _ & C').
@@ -2015,15 +2120,19 @@ Proof.
   exists gb. split; assumption.
 Qed.
 
-(* ------------------------------------------------------------------ health-check workers outlive a failed attempt *)
-Lemma health_checkers_refuted :
-  (exists g', attempt Load 1 [] (mkcfg 1 [EProxy] [ABusy]) g0 = (RErr, g') /\ g_probers g' = [1]) /\
-  (exists g', attempt Validate 1 [] (mkcfg 1 [EProxy; EBad] [AEph 1]) g0 = (RErr, g') /\ g_probers g' = [1]) /\
+(* ------------------------------------------------------------------ health-check workers: the former witnesses *)
+(* what the repair of F-C08-5 achieves (nothing is started while directives are parsed, by a validation, or by a
+   configuration that a directive rejects) ... *)
+Lemma health_checkers_witness :
+  (exists g', attempt Validate 1 [] (mkcfg 1 [EProxy; EBad] [AEph 1]) g0 = (RErr, g') /\ g_probers g' = []) /\
+  (exists g', attempt Validate 1 [] (mkcfg 1 [EProxy] [AEph 1]) g0 = (ROk, g') /\ g_probers g' = []) /\
+  (exists g', attempt Load 1 [] (mkcfg 1 [EProxy; EBad] [AEph 1; ABusy]) g0 = (RErr, g') /\ g_probers g' = []) /\
+  (exists g', attempt Load 1 [] (mkcfg 1 [ELog 1 1 false; EProxy] [AEph 1]) g0 = (RErr, g') /\ g_probers g' = []) /\
   (exists g1 g2, attempt Load 1 [] (mkcfg 1 [EProxy] [AEph 1]) g0 = (ROk, g1) /\ g_probers g1 = [1] /\
-                 attempt Reload 2 [] (mkcfg 2 [EProxy; EBad] [AEph 1]) g1 = (RErr, g2) /\ g_probers g2 = [1; 2]) /\
-  (exists g1 g2, attempt Load 1 [] (mkcfg 1 [EProxy] [AEph 1]) g0 = (ROk, g1) /\
-                 attempt Sigusr1 2 [] (mkcfg 2 [EProxy] [AEph 1; ABusy]) g1 = (RErr, g2) /\ g_probers g2 = [1; 2]) /\
-  (* whereas a reload that succeeds stops the workers of the instance it replaces *)
+                 attempt Reload 2 [] (mkcfg 2 [EProxy; EBad] [AEph 1]) g1 = (RErr, g2) /\ g_probers g2 = [1]) /\
+  (exists g1 g2, attempt Load 1 [] (mkcfg 1 [EProxy] [AEph 1]) g0 = (ROk, g1) /\ g_probers g1 = [1] /\
+                 attempt Sigusr1 2 [] (mkcfg 2 [EProxy; EBad] [AEph 1]) g1 = (RErr, g2) /\ g_probers g2 = [1]) /\
+  (* and a reload that succeeds stops the workers of the instance it replaces *)
   (exists g1 g2, attempt Load 1 [] (mkcfg 1 [EProxy] [AEph 1]) g0 = (ROk, g1) /\
                  attempt Reload 2 [] (mkcfg 2 [EProxy] [AEph 1]) g1 = (ROk, g2) /\ g_probers g2 = [2]).
 Proof.
@@ -2031,108 +2140,25 @@ Proof.
     eexists; eexists; vm_compute; repeat split; reflexivity.
 Qed.
 
-(* ------------------------------------------------------------------ a panic contained by Restart *)
-Lemma do_reload_exec_fails step e c g old rest r1 g1 l :
-  g_insts g = old :: rest -> parse_ok c = true -> exec_effs step e (c_effs c) g l0 = (r1, g1, l) -> r1 <> ROk ->
-  fst (do_reload step e c g) <> ROk.
+(* ... and what is left (F-C08-5f): a listener that fails to bind AFTER the startup callbacks ran leaves the
+   workers of the rejected configuration running - nothing runs the shutdown callbacks of a discarded instance *)
+Lemma health_checkers_refuted :
+  (exists g', attempt Load 1 [] (mkcfg 1 [EProxy] [ABusy]) g0 = (RErr, g') /\ g_probers g' = [1]) /\
+  (exists g1 g2, attempt Load 1 [] (mkcfg 1 [EProxy] [AEph 1]) g0 = (ROk, g1) /\ g_probers g1 = [1] /\
+                 attempt Reload 2 [] (mkcfg 2 [EProxy] [AEph 1; ABusy]) g1 = (RErr, g2) /\ g_probers g2 = [1; 2]) /\
+  (exists g1 g2, attempt Load 1 [] (mkcfg 1 [EProxy] [AEph 1]) g0 = (ROk, g1) /\
+                 attempt Sigusr1 2 [] (mkcfg 2 [EProxy] [AEph 1; ABusy]) g1 = (RErr, g2) /\ g_probers g2 = [1; 2]).
 Proof.
-  intros GI P E NR. unfold do_reload, start_with, start_body. rewrite GI, P, E. cbn [negb].
-  destruct r1; [congruence|simpl; discriminate|simpl; discriminate].
+  repeat split; try (eexists; vm_compute; split; reflexivity);
+    eexists; eexists; vm_compute; repeat split; reflexivity.
 Qed.
 
-Lemma do_reload_unparsed_fails step e c g : parse_ok c = false -> fst (do_reload step e c g) <> ROk.
-Proof.
-  intros P. unfold do_reload. destruct (g_insts g); [simpl; discriminate|].
-  rewrite (start_with_unparsed _ _ _ _ _ P). simpl. discriminate.
-Qed.
-
-Lemma do_sigusr1_of_failed_reload step e c g :
-  fst (do_reload step e c (set_hooks g [])) <> ROk -> fst (do_sigusr1 step e c g) <> ROk.
-Proof.
-  intros NR. rewrite do_sigusr1_unfold. destruct (g_insts g); [simpl; discriminate|].
-  destruct (do_reload step e c (set_hooks g [])) as [r1 g1]. simpl in NR.
-  destruct r1; [congruence|simpl; discriminate|simpl; discriminate].
-Qed.
-
-(* it never reports success ... *)
-Lemma attempt_panic_fails sg step e c g r g' : attempt_panic sg step e c g = (r, g') -> r <> ROk.
-Proof.
-  destruct sg; simpl; intros H.
-  - unfold do_sigusr1_panic in H. destruct (g_insts g) as [|old rest] eqn:GI; [injection H as <- <-; discriminate|].
-    destruct (loader_fails c); [injection H as <- <-; discriminate|].
-    destruct (parse_ok c) eqn:P.
-    + destruct (exec_effs step e (c_effs c) (set_hooks g []) l0) as [[r1 g1] l] eqn:E1.
-      assert (NS : r1 <> ROk -> fst (do_sigusr1 step e c g) <> ROk).
-      { intros NR. apply do_sigusr1_of_failed_reload.
-        eapply do_reload_exec_fails; [exact GI|exact P|exact E1|exact NR]. }
-      destruct r1; [injection H as <- <-; discriminate|..]; rewrite H in NS; apply NS; discriminate.
-    + pose proof (do_sigusr1_of_failed_reload step e c g (do_reload_unparsed_fails _ _ _ _ P)) as NS.
-      rewrite H in NS. exact NS.
-  - unfold do_reload_panic in H. destruct (g_insts g) as [|old rest] eqn:GI; [injection H as <- <-; discriminate|].
-    destruct (parse_ok c) eqn:P.
-    + destruct (exec_effs step e (c_effs c) g l0) as [[r1 g1] l] eqn:E1.
-      assert (NS : r1 <> ROk -> fst (do_reload step e c g) <> ROk).
-      { intros NR. eapply do_reload_exec_fails; [exact GI|exact P|exact E1|exact NR]. }
-      destruct r1; [injection H as <- <-; discriminate|..]; rewrite H in NS; apply NS; discriminate.
-    + pose proof (do_reload_unparsed_fails step e c g P) as NS. rewrite H in NS. exact NS.
-Qed.
-
-(* ... and this is what it still leaves alone: the socket table with its descriptors, the mutex, every roller,
-   every instance that was running (still in the list, its listeners open); at most ONE half-made instance
-   without servers is appended *)
-Theorem contained_panic_partial sg step e c g r g' :
-  wf g -> attempt_panic sg step e c g = (r, g') ->
-  r <> ROk /\ g_socks g' = g_socks g /\ g_next g' = g_next g /\ g_htlock g' = g_htlock g /\
-  (forall f x, assoc f (g_rollers g) = Some x -> assoc f (g_rollers g') = Some x) /\
-  (g_insts g' = g_insts g \/ exists z, g_insts g' = g_insts g ++ [z] /\ i_servers z = []) /\
-  (forall i, In i (g_insts g) -> alive g i -> alive g' i).
-Proof.
-  intros W H. pose proof (attempt_panic_fails _ _ _ _ _ _ _ H) as NR. split; [exact NR|].
-  assert (FALL : forall m, attempt m step e c g = (r, g') ->
-            g_socks g' = g_socks g /\ g_next g' = g_next g /\ g_htlock g' = g_htlock g /\
-            (forall f x, assoc f (g_rollers g) = Some x -> assoc f (g_rollers g') = Some x) /\
-            (g_insts g' = g_insts g \/ exists z, g_insts g' = g_insts g ++ [z] /\ i_servers z = []) /\
-            (forall i, In i (g_insts g) -> alive g i -> alive g' i)).
-  { intros m A. destruct (failed_attempt_loses_nothing _ _ _ _ _ _ _ W A NR) as (F1 & F2 & F3 & F4 & F5).
-    destruct W as (W1 & T & C). destruct (failed_attempt_socks _ _ _ _ _ _ _ T A NR) as [_ S2].
-    split; [exact F5|]. split; [exact S2|]. split; [exact F2|]. split; [exact F4|]. split; [left; exact F1|].
-    intros i Hi AL a sid Hin. unfold alive in AL. rewrite F5. exact (AL a sid Hin). }
-  assert (PANIC : forall ga g1 l, g_socks ga = g_socks g -> g_next ga = g_next g -> g_htlock ga = g_htlock g ->
-            g_rollers ga = g_rollers g -> g_insts ga = g_insts g ->
-            exec_effs step e (c_effs c) ga l0 = (ROk, g1, l) -> g' = set_insts g1 (g_insts g1 ++ [zombie step c]) ->
-            g_socks g' = g_socks g /\ g_next g' = g_next g /\ g_htlock g' = g_htlock g /\
-            (forall f x, assoc f (g_rollers g) = Some x -> assoc f (g_rollers g') = Some x) /\
-            (g_insts g' = g_insts g \/ exists z, g_insts g' = g_insts g ++ [z] /\ i_servers z = []) /\
-            (forall i, In i (g_insts g) -> alive g i -> alive g' i)).
-  { intros ga g1 l A1 A2 A3 A4 A5 E ->. destruct (exec_effs_ext _ _ _ _ _ _ _ _ E) as [X1 X2 X3 X4 X5 _ _].
-    cbn [set_insts g_socks g_next g_htlock g_rollers g_insts].
-    split; [congruence|]. split; [congruence|]. split; [congruence|]. split; [|split].
-    - intros f x Hx. rewrite X4, A4. exact Hx.
-    - right. exists (zombie step c). split; [congruence|reflexivity].
-    - intros i Hi AL a sid Hin. unfold alive in *. cbn [set_insts g_socks]. rewrite X2, A1. exact (AL a sid Hin). }
-  destruct sg; simpl in H.
-  - unfold do_sigusr1_panic in H. destruct (g_insts g) as [|old rest] eqn:GI.
-    { injection H as <- <-. auto 10. }
-    destruct (loader_fails c). { injection H as <- <-. rewrite GI. auto 10. }
-    destruct (parse_ok c); [|exact (FALL Sigusr1 H)].
-    destruct (exec_effs step e (c_effs c) (set_hooks g []) l0) as [[r1 g1] l] eqn:E1.
-    destruct r1; try (exact (FALL Sigusr1 H)).
-    injection H as <- <-. eapply PANIC; try exact E1; try reflexivity; exact GI.
-  - unfold do_reload_panic in H. destruct (g_insts g) as [|old rest] eqn:GI.
-    { injection H as <- <-. auto 10. }
-    destruct (parse_ok c); [|exact (FALL Reload H)].
-    destruct (exec_effs step e (c_effs c) g l0) as [[r1 g1] l] eqn:E1.
-    destruct r1; try (exact (FALL Reload H)).
-    injection H as <- <-. eapply PANIC; try exact E1; try reflexivity; exact GI.
-Qed.
-
-(* what it does NOT leave alone: the instance list and the hook registry (API-driven: the hooks of the
-   rejected configuration stay; SIGUSR1: the hooks of the running configuration are gone as well) *)
-Lemma contained_panic_refuted :
+(* the former witnesses of the contained panic: nothing is left behind *)
+Lemma contained_panic_witness :
   exists g1 g2 g3,
     attempt Load 1 [] (mkcfg 1 [EOn 1] [AEph 1]) g0 = (ROk, g1) /\ g_hooks g1 = [1] /\ length (g_insts g1) = 1%nat /\
     attempt_panic false 2 [] (mkcfg 2 [EOn 1] [AEph 1]) g1 = (RErr, g2) /\
-    g_hooks g2 = [1; 2] /\ length (g_insts g2) = 2%nat /\
+    g_hooks g2 = [1] /\ length (g_insts g2) = 1%nat /\
     attempt_panic true 3 [] (mkcfg 3 [EOn 1] [AEph 1]) g1 = (RErr, g3) /\
-    g_hooks g3 = [3] /\ length (g_insts g3) = 2%nat.
+    g_hooks g3 = [1] /\ length (g_insts g3) = 1%nat.
 Proof. do 3 eexists. vm_compute. repeat split; reflexivity. Qed.
